@@ -3,7 +3,7 @@
 PROPS = {
     'C15': dict(
         verus=['tile_bbox'],
-        kani=['pyramid', 'tile_bbox', 'geo'],
+        kani=['pyramid', 'tile_bbox', 'geo', 'tile_bbox_iter'],
         not_decided=[
             'y-axis geographic round trip through libm tan/ln/exp/atan (numerical error analysis out of reach)',
         ],
@@ -36,7 +36,7 @@ PROPS = {
     ),
     'C08': dict(
         verus=['overlay', 'compression'],
-        kani=['pyramid', 'tile_converter'],
+        kani=['pyramid', 'tile_converter', 'tile_bbox_iter'],
         not_decided=[
             'get_tile_stream of the overlay (async closure per 32x32 sub-box mutating a captured vector)',
             'construction of the nested source pipelines (join_all, havoc under R9)',
@@ -67,7 +67,7 @@ PROPS = {
     ),
     'C01': dict(
         verus=['pmtiles_dir', 'varint_pbf', 'tile_bbox'],
-        kani=['pmtiles_codec', 'versatiles_codec', 'tile_bbox'],
+        kani=['pmtiles_codec', 'versatiles_codec', 'tile_bbox', 'tile_bbox_iter'],
         not_decided=[
             'end-to-end write-then-read through async I/O (writer bodies, de-duplication closure, PMTiles write loop)',
             'MBTiles (SQL), tar and directory (file names), getters.rs dispatch',
